@@ -262,14 +262,14 @@ fn w_roundtrip(ctx: &mut Ctx) {
                     }
                     if !edited_after && !extreme {
                         if v1 != '-' && v2 != '-' && v1 != v2 {
-                            // Classification for the known-findings file.  The scale/unscale round trip may move
-                            // every datum by an ulp or two (the property allows exactly that); on a problem that is
-                            // ill-posed - a point passing the documented optimality test AND a certificate passing the
-                            // documented infeasibility test both exist, or it is infeasible both ways - that is enough
-                            // to tip the verdict.  The mechanism signature is given only when (a) the file's data
-                            // really differ from the user's in some bit and (b) BOTH outcomes pass their own documented
-                            // tests on the user's problem; with bit-identical data the two solves are the same
-                            // deterministic computation and any difference stays a plain violation.
+                            // The scale/unscale round trip may move every datum by an ulp or two (the property allows
+                            // exactly that); on a problem that is ill-posed - a point passing the documented optimality
+                            // test AND a certificate passing the documented infeasibility test both exist, or it is
+                            // infeasible both ways - that is enough to tip the verdict, and neither run is wrong.  Such a
+                            // pair is counted, not judged (the rule C05, C08 and C18 use for verdict pairs), but only when
+                            // (a) the file's data really differ from the user's in some bit and (b) BOTH outcomes pass
+                            // their own documented tests on the user's problem; with bit-identical data the two solves
+                            // are the same deterministic computation and any difference is a violation.
                             let file_differs = match serde_json::from_slice::<Value>(&bytes) {
                                 Ok(v) => {
                                     let arr = |x: &Value| -> Vec<f64> { x.as_array().map(|a| a.iter().map(|t| t.as_f64().unwrap_or(f64::NAN)).collect()).unwrap_or_default() };
@@ -304,9 +304,12 @@ fn w_roundtrip(ctx: &mut Ctx) {
                                 }
                             };
                             let ill_posed = st.equilibrate_enable && file_differs && passes_own_test(&r1) && passes_own_test(&r2);
-                            let sig = if ill_posed { "loaded_solve_verdict:rounding_tips_ill_posed_problem" } else { "loaded_solve_verdict" };
-                            bad(sig, json!({"original": status_name(r1.status), "loaded": status_name(r2.status), "file_data_differ_in_some_bit": file_differs,
-                                            "original_result": r1.summary_json(), "loaded_result": r2.summary_json()}));
+                            if ill_posed {
+                                ctx.bump("loaded_vs_original_verdict_pair_on_ill_posed_problem_(both_pass_documented_tests,_file_differs_in_last_bits)");
+                            } else {
+                                bad("loaded_solve_verdict", json!({"original": status_name(r1.status), "loaded": status_name(r2.status), "file_data_differ_in_some_bit": file_differs,
+                                                "original_result": r1.summary_json(), "loaded_result": r2.summary_json()}));
+                            }
                         } else if r1.status == SolverStatus::Solved && r2.status == SolverStatus::Solved {
                             let den = r1.obj_val.abs().max(1.0);
                             let tol = 20.0 * (st.tol_gap_abs + st.tol_gap_rel * den) + 1e-6 * den;
